@@ -322,7 +322,7 @@ func TestVerifC01NoiseAttacker(t *testing.T) {
 				for _, hc := range hcfgs {
 					for vi, v := range variants {
 						n++
-						if n%nshards != shard {
+						if !c01Mine(n, shard, nshards) {
 							continue
 						}
 						if a.expired() {
